@@ -1280,6 +1280,12 @@ def create_junctions(net, nr_junctions, pn_bar, tfluid_k, height_m=0, name=None,
     add_new_component(net, Junction)
 
     index = _get_multiple_index_with_check(net, "junction", index, nr_junctions)
+    if geodata is not None:
+        # reject malformed coordinates before any junction is written
+        geodata = np.array(geodata, dtype=np.float64)
+        if geodata.shape not in [(2,), (len(index), 2)]:
+            raise ValueError("geodata must be given as (x, y) tuple or as array of shape "
+                             "(nr_junctions, 2)")
     entries = {"pn_bar": pn_bar, "type": type, "tfluid_k": tfluid_k, "height_m": height_m, "in_service": in_service,
                "name": name}
     _set_multiple_entries(net, "junction", index, **entries, **kwargs)
